@@ -85,6 +85,19 @@ pub struct Run {
     pub canon: u64,
     pub outcome: String,
     pub served_dirty: u64,
+    /// what decides which events are enabled next (taken before the final drain)
+    pub held: usize,
+    pub in_refresh: bool,
+}
+
+/// is `op` enabled after a history that left `held` items with users / a refresh in progress?
+pub fn enabled(op: Op, held: usize, in_refresh: bool) -> bool {
+    match op {
+        Op::Acquire => held < MAX_HELD,
+        Op::GiveItem(k) | Op::DropItem(k) | Op::GiveExplicit(k) => (k as usize) < held,
+        Op::ForeignGive => !in_refresh,
+        Op::RefreshStep | Op::Reset => true,
+    }
 }
 
 /// the expanded step list of one refresh for a pool of `size`
@@ -399,6 +412,11 @@ impl<'a> World<'a> {
         }
         let mut drained = vec![];
         for _ in 0..(self.cfg.size + 4) {
+            // (an empty pool is not asked: the time-out branch is exercised by the Acquire events,
+            // and a timed futex wait costs ~50 µs here)
+            if self.count("(drain)") == 0 {
+                break;
+            }
             match self.acquire("the final drain") {
                 Some(item) => drained.push(item),
                 None => break,
@@ -452,6 +470,7 @@ pub fn run(cfg: Config, ops: &[Op]) -> Run {
             }
         }
         let canon = w.canon();
+        let (held_n, in_refresh) = (w.held.len(), w.in_refresh());
         w.finish_and_drain();
         let held = std::mem::take(&mut w.held);
         for h in held {
@@ -472,7 +491,16 @@ pub fn run(cfg: Config, ops: &[Op]) -> Run {
         .find(|f| w.flags.contains_key(f))
         .unwrap_or("plain")
         .to_string();
-        Run { disabled: false, violations: w.violations, nontrivial: w.nontrivial, canon, outcome, served_dirty: w.served_dirty }
+        Run {
+            disabled: false,
+            violations: w.violations,
+            nontrivial: w.nontrivial,
+            canon,
+            outcome,
+            served_dirty: w.served_dirty,
+            held: held_n,
+            in_refresh,
+        }
     });
     match r {
         Ok(r) => r,
@@ -483,6 +511,8 @@ pub fn run(cfg: Config, ops: &[Op]) -> Run {
             canon: 0,
             outcome: "panic".into(),
             served_dirty: 0,
+            held: 0,
+            in_refresh: false,
         },
     }
 }
@@ -490,7 +520,8 @@ pub fn run(cfg: Config, ops: &[Op]) -> Run {
 /// per-worker accumulator
 #[derive(Default)]
 struct Acc {
-    runs: u64,
+    candidates: u64,
+    enabledness_mismatch: u64,
     enabled: u64,
     by_len: BTreeMap<usize, u64>,
     states: HashSet<u64>,
@@ -533,7 +564,8 @@ impl Acc {
         }
     }
     fn merge(&mut self, o: Acc) {
-        self.runs += o.runs;
+        self.candidates += o.candidates;
+        self.enabledness_mismatch += o.enabledness_mismatch;
         self.enabled += o.enabled;
         for (k, v) in o.by_len {
             *self.by_len.entry(k).or_insert(0) += v;
@@ -568,15 +600,21 @@ impl Acc {
     }
 }
 
-fn dfs(cfg: Config, alpha: &[Op], hist: &mut Vec<Op>, depth: usize, acc: &mut Acc) {
+/// all enabled extensions of `hist` (whose run left `held` items out / `in_refresh`), depth first
+fn dfs(cfg: Config, alpha: &[Op], hist: &mut Vec<Op>, held: usize, in_refresh: bool, depth: usize, acc: &mut Acc) {
     for op in alpha {
+        acc.candidates += 1;
+        if !enabled(*op, held, in_refresh) {
+            continue;
+        }
         hist.push(*op);
-        acc.runs += 1;
         let r = run(cfg, hist);
-        if !r.disabled {
+        if r.disabled {
+            acc.enabledness_mismatch += 1;
+        } else {
             acc.account(cfg, hist, &r);
             if hist.len() < depth {
-                dfs(cfg, alpha, hist, depth, acc);
+                dfs(cfg, alpha, hist, r.held, r.in_refresh, depth, acc);
             }
         }
         hist.pop();
@@ -585,7 +623,7 @@ fn dfs(cfg: Config, alpha: &[Op], hist: &mut Vec<Op>, depth: usize, acc: &mut Ac
 
 pub fn explore(ctx: &Ctx, rep: &mut Report, found: &mut Findings) {
     let t0 = std::time::Instant::now();
-    let depth: usize = ctx.tier.pick(7, 9);
+    let depth: usize = ctx.tier.pick(7, 8);
     let sizes: Vec<usize> = ctx.tier.pick(vec![1, 2], vec![1, 2, 3]);
     let alpha = alphabet();
     let mut total = Acc::default();
@@ -593,37 +631,40 @@ pub fn explore(ctx: &Ctx, rep: &mut Report, found: &mut Findings) {
     for &size in &sizes {
         for init_full in [true, false] {
             let cfg = Config { size, init_full };
-            // sizes above 2 one step shallower: the refill alone takes `size` steps
-            let depth = if size >= 3 { depth - 1 } else { depth };
-            // the empty history and all enabled histories of length 1 and 2, sequentially
+            // thorough: one step deeper on the smallest pool, where a whole refresh takes 3 events
+            let depth = if size == 1 && depth >= 8 { depth + 1 } else { depth };
+            // the empty history and all enabled histories of length 1..3 first (work items)
             let mut acc = Acc::default();
-            acc.runs += 1;
+            acc.candidates += 1;
             let r0 = run(cfg, &[]);
             acc.account(cfg, &[], &r0);
-            let mut prefixes: Vec<Vec<Op>> = vec![];
-            for a in &alpha {
-                acc.runs += 1;
-                let r = run(cfg, &[*a]);
-                if r.disabled {
-                    continue;
-                }
-                acc.account(cfg, &[*a], &r);
-                for b in &alpha {
-                    acc.runs += 1;
-                    let h = vec![*a, *b];
-                    let r = run(cfg, &h);
-                    if r.disabled {
-                        continue;
+            let mut prefixes: Vec<(Vec<Op>, usize, bool)> = vec![(vec![], r0.held, r0.in_refresh)];
+            for _ in 0..3.min(depth) {
+                let mut next = vec![];
+                for (h, held, in_refresh) in &prefixes {
+                    for a in &alpha {
+                        acc.candidates += 1;
+                        if !enabled(*a, *held, *in_refresh) {
+                            continue;
+                        }
+                        let mut h2 = h.clone();
+                        h2.push(*a);
+                        let r = run(cfg, &h2);
+                        if r.disabled {
+                            acc.enabledness_mismatch += 1;
+                            continue;
+                        }
+                        acc.account(cfg, &h2, &r);
+                        next.push((h2, r.held, r.in_refresh));
                     }
-                    acc.account(cfg, &h, &r);
-                    prefixes.push(h);
                 }
+                prefixes = next;
             }
-            let parts = par_map(&prefixes, ctx.threads(), |_, p| {
+            let parts = par_map(&prefixes, ctx.threads(), |_, (p, held, in_refresh)| {
                 let mut a = Acc::default();
                 let mut h = p.clone();
                 if h.len() < depth {
-                    dfs(cfg, &alpha, &mut h, depth, &mut a);
+                    dfs(cfg, &alpha, &mut h, *held, *in_refresh, depth, &mut a);
                 }
                 a
             });
@@ -642,6 +683,9 @@ pub fn explore(ctx: &Ctx, rep: &mut Report, found: &mut Findings) {
         rep.machinery_error("sequential replay divergence on the probe history".into());
     }
 
+    if total.enabledness_mismatch > 0 {
+        rep.machinery_error(format!("{} histories were predicted enabled but were not", total.enabledness_mismatch));
+    }
     rep.evaluations += total.enabled;
     for h in &total.nontrivial {
         rep.nontrivial.insert(*h);
@@ -659,7 +703,7 @@ pub fn explore(ctx: &Ctx, rep: &mut Report, found: &mut Findings) {
             "max_held_items": MAX_HELD,
             "configurations": per_cfg,
             "histories_run": total.enabled,
-            "candidate_histories_including_disabled_last_event": total.runs,
+            "candidate_histories_including_disabled_last_event": total.candidates,
             "histories_agreeing_with_reference": total.clean,
             "distinct_end_states": total.states.len(),
             "resources_served_without_reset": total.served_dirty,
